@@ -114,3 +114,54 @@ VARIANTS = [
       "    a = params[1] + (params[3] * state[1]) + (state[0] * params[2])\n"
       "    out[0] = np.exp(-(a ** 2)) * params[0]", "silent"),
 ]
+
+CG = "moptipyapps/dynamic_control/controllers/codegen.py"
+AN = "moptipyapps/dynamic_control/controllers/ann.py"
+LI = "moptipyapps/dynamic_control/controllers/linear.py"
+SL = "moptipyapps/dynamic_control/systems/stuart_landau.py"
+VARIANTS += [
+    V("ann-inputs-never-defined", AN,
+      "        writeln(f\"{vv} = state[{i}]\")\n", "", "fire", "D16.7"),
+    V("ann-neuron-not-closed", AN,
+      "                params += 1\n            writeln(\")\")\n"
+      "        vars_cached.extend",
+      "                params += 1\n            writeln(\"\")\n"
+      "        vars_cached.extend", "fire", "D16.7"),
+    V("ann-fresh-names-collide", AN,
+      "                var_count += 1\n", "", "fire", "D16.7"),
+    V("ann-pop-from-empty", AN, "            if len(vars_cached) > 0:",
+      "            if len(vars_cached) >= 0:", "fire", "D16.7"),
+    V("ann-output-without-multiplier", AN,
+      "        write(f\"out[{i}] = params[{params}] * \")  # the multiplier\n"
+      "        params += 1\n        write(f\"np.arctan(params[{params}]\")",
+      "        write(f\"out[{i}] = np.arctan(params[{params}]\")", "fire",
+      "D16.7"),
+    V("anns-dimensions-swapped", AN,
+      "    return (make_ann(state_dims, control_dims, []),",
+      "    return (make_ann(control_dims, state_dims, []),", "fire", "D16.7"),
+    V("ann-controller-dims-swapped", AN,
+      "        state_dims, control_dims, params, code.build())",
+      "        control_dims, state_dims, params, code.build())", "fire",
+      "D16.7"),
+    V("codegen-indent-not-at-line-start", CG,
+      "        if self.__start:\n            self.__write(self.__indent * "
+      "\"    \")",
+      "        if not self.__start:\n            self.__write(self.__indent"
+      " * \"    \")", "fire", "D16.8"),
+    V("codegen-three-space-indent", CG, "self.__indent * \"    \")",
+      "self.__indent * \"   \")", "fire", "D16.8"),
+    V("codegen-no-newline", CG, "            self.__write(\"\\n\")\n", "",
+      "fire", "D16.8"),
+    V("codegen-unindent-adds", CG, "        self.__indent -= 1",
+      "        self.__indent += 1", "fire", "D16.8"),
+    V("linear-2d-for-3d-systems", LI, "    if system.state_dims == 2:",
+      "    if system.state_dims != 2:", "fire", "D16.0"),
+    V("linear-control-dims-guard", LI, "    if system.control_dims != 1:",
+      "    if system.control_dims == 1:", "fire", "D16.0"),
+    V("stuart-landau-declares-three-states", SL,
+      "        \"stuart_landau\", 2, 1, 2, 2, 0.1,",
+      "        \"stuart_landau\", 3, 1, 2, 2, 0.1,", "fire", "D16.5"),
+    V("silent-ann-no-recycling", AN,
+      "        vars_cached.extend(vars_in)  # old inputs ready for reuse\n",
+      "", "silent", "", "only more fresh variables are used"),
+]
